@@ -427,7 +427,7 @@ func CustomCase(r *rand.Rand, name string, o CustomOpts) *Case {
 			continue
 		}
 		// positions of the pair inside S / T
-		pos := []string{"D", "L", "M", "P", "N", "LN", "MP", "MK", "MKE", "LL", "MSK"}
+		pos := []string{"D", "L", "M", "P", "N", "LN", "MP", "MK", "MKE", "LL", "MSK", "MA", "PA"}
 		r.Shuffle(len(pos), func(a, b int) { pos[a], pos[b] = pos[b], pos[a] })
 		for _, p := range pos[:1+r.Intn(3)] {
 			f := fmt.Sprintf("%s%d", p, i)
@@ -455,6 +455,14 @@ func CustomCase(r *rand.Rand, name string, o CustomOpts) *Case {
 				callables["fn:"+kf] = "conv." + kf
 				sS.Fields = append(sS.Fields, F(f, Map(Named(ks), Named(ha))))
 				tS.Fields = append(tS.Fields, F(f, Map(Named(kt), Named(hb))))
+			case "MA":
+				// map whose values are fixed-size arrays (converted to slices)
+				sS.Fields = append(sS.Fields, F(f, Map(Basic("string"), Array(2, Named(ha)))))
+				tS.Fields = append(tS.Fields, F(f, Map(Basic("string"), Slice(Named(hb)))))
+			case "PA":
+				// pointer to a fixed-size array
+				sS.Fields = append(sS.Fields, F(f, Ptr(Array(2, Named(ha)))))
+				tS.Fields = append(tS.Fields, F(f, Ptr(Slice(Named(hb)))))
 			case "MSK":
 				// a map with a struct key (converted field by field) and the hooked pair as value
 				sS.Fields = append(sS.Fields, F(f, Map(Struct(F("A", Basic("int")), F("B", Basic("string"))), Named(ha))))
